@@ -264,6 +264,8 @@ class TheoryTermToAtomTransformer(_ast.Transformer):
         name     --  The name of the atom.
         arguments -- The arguments of the atom.
         """
+        if name.startswith("'") or name.endswith("'"):
+            raise RuntimeError("temporal formulas use < and > instead of primes: {}".format(_tf.str_location(location)))
         ret = _ast.Function(location, name, arguments + [time_parameter(location)], False)
         if not positive:
             ret = _ast.UnaryOperation(location, _ast.UnaryOperator.Minus, ret)
